@@ -59,7 +59,9 @@ def main():
         opt_log = os.path.join(common.scratch_root(), "python_O.log")
         opt_child = (subprocess.Popen([common.PY, "-O", "-u", "-m", "vlib.main", pid, tier, "--subset", str(k)],
                                       stdout=open(opt_log, "w"), stderr=subprocess.STDOUT, cwd=common.VERIF,
-                                      env=dict(os.environ, PYTHONOPTIMIZE="1", VERIF_OPT="off")), opt_log, k)
+                                      env=dict(os.environ, PYTHONOPTIMIZE="1", VERIF_OPT="off",
+                                               # ... and another string-hash seed (the iteration order of sets of names)
+                                               PYTHONHASHSEED=str(1000 + seed))), opt_log, k)
     common.ensure_deps()
     common.import_repo()
     from . import typefuzz
